@@ -253,7 +253,28 @@ func NewCFG(body *ast.BlockStmt, info *types.Info) *FuncCFG {
 	return fc
 }
 
-func (fc *FuncCFG) BlockOf(n ast.Node) *cfg.Block { return fc.blockOf[n] }
+func (fc *FuncCFG) BlockOf(n ast.Node) *cfg.Block {
+	if b, ok := fc.blockOf[n]; ok {
+		return b
+	}
+	// compound statements (if/for/switch/block) are not stored themselves: take the
+	// first stored node inside them in source order.
+	var found *cfg.Block
+	ast.Inspect(n, func(x ast.Node) bool {
+		if found != nil || x == nil {
+			return false
+		}
+		if _, isLit := x.(*ast.FuncLit); isLit {
+			return false
+		}
+		if b, ok := fc.blockOf[x]; ok {
+			found = b
+			return false
+		}
+		return true
+	})
+	return found
+}
 
 // NodeIndex returns the index within b.Nodes of the top-level node containing n, or -1.
 func (fc *FuncCFG) NodeIndex(b *cfg.Block, n ast.Node) int {
